@@ -27,6 +27,8 @@ pub struct Reader<'a> {
     pub allow_local: bool,
     /// never inflate more than this many bytes from one COMPRESSED section (beyond min(declared + 1, this))
     pub max_inflate: usize,
+    /// every tag byte read at a term position so far (bit set per tag)
+    pub tags_seen: [u64; 4],
 }
 
 impl<'a> Reader<'a> {
@@ -38,6 +40,7 @@ impl<'a> Reader<'a> {
             inflated: 0,
             allow_local: true,
             max_inflate: usize::MAX,
+            tags_seen: [0; 4],
         }
     }
 
@@ -106,6 +109,7 @@ impl<'a> Reader<'a> {
             return Err(RefErr::TooDeep);
         }
         let tag = self.u8()?;
+        self.tags_seen[(tag >> 6) as usize] |= 1u64 << (tag & 63);
         match tag {
             97 => Ok(Val::int(self.u8()? as i128)),
             98 => Ok(Val::int(self.u32()? as i32 as i128)),
@@ -409,6 +413,9 @@ impl<'a> Reader<'a> {
                 inner.max_inflate = self.max_inflate;
                 let v = inner.term(depth + 1);
                 self.inflated += inner.inflated;
+                for k in 0..4 {
+                    self.tags_seen[k] |= inner.tags_seen[k];
+                }
                 let v = v?;
                 if inner.pos != out.len() {
                     return Err(RefErr::Invalid("trailing bytes inside compressed section"));
